@@ -333,6 +333,14 @@ func (p *Peer) Drain() []Dgram {
 	return out
 }
 
+// Peek returns a copy of what is waiting without removing it.
+func (p *Peer) Peek() []Dgram {
+	p.mu.Lock()
+	defer p.mu.Unlock()
+
+	return append([]Dgram(nil), p.inbox...)
+}
+
 // Pending returns the number of datagrams waiting.
 func (p *Peer) Pending() int {
 	p.mu.Lock()
